@@ -107,7 +107,8 @@ func goType(t *TypeD) (reflect.Type, error) {
 			}
 			sf := reflect.StructField{Name: fmt.Sprintf("F%d", i+1), Type: ft}
 			if f.Tag != nil && f.Tag.Op != "none" {
-				text, err := Render(f.Tag, Style{})
+				// every other field's tag in abbreviated syntax with minimal spacing (@x, b/@x, ..), the others spelled out
+				text, err := Render(f.Tag, Style{Abbrev: i%2 == 0, Space: 1})
 				if err != nil {
 					return nil, err
 				}
